@@ -84,6 +84,8 @@ var (
 		`(?:x)*`,
 		`.*`,
 		`(\w+)( \d+)?( /\S*)?`,
+		// nothing but literal text inside groups (what a regex library calls a complete literal prefix)
+		`(GET) (200)`, `(?P<verb>POST) (?P<code>404)`, `^heartbeat$`, `(DEL)`,
 	}
 	genDissect = []string{
 		`%{verb} %{code} %{path}`,
@@ -248,6 +250,19 @@ func genPipeScenario(rc *RunCtx, allowStdin bool, maxLinesPerInput int) *pipeSce
 		}
 	}
 	sc.Batch = []int{1, 2, 3, 5, 1000}[t.W(5)]
+	if !sc.Stdin && t.WBool(1, 40) {
+		// one input of exactly 1024 or 2048 lines that all match, read in batches of 1024, 2048 or 4096 lines: counts that
+		// are exact multiples of the sizes a stage might chunk by
+		n := []int{1024, 2048}[t.W(2)]
+		var b bytes.Buffer
+		for i := 0; i < n; i++ {
+			fmt.Fprintf(&b, "%s %s /p%d\n", genVerbs[i%len(genVerbs)], genCodes[i%len(genCodes)], i%7)
+		}
+		sc.Inputs = []pipeInput{{Name: "big.log", Data: b.Bytes()}}
+		sc.Gunzip = false
+		sc.Batch = []int{1024, 2048, 4096}[t.W(3)]
+		sc.ConsLatPm = 0
+	}
 	sc.Workers = t.WRange(1, 4)
 	if t.WBool(1, 12) {
 		sc.Workers = 0 // "use the default" (two workers)
